@@ -33,6 +33,7 @@ ASSUMPTIONS = [
     'numbers written to text files are placeholders decoded by int()/float() (axiom: int(str(i)) == i, '
     'float(repr(x)) == x); string values are non-numeric labels',
     'different metadata files define different fields (directory order is unspecified on a real file system)',
+    'forms added after seeding rounds: foreign CSV whose columns are named like saved fields, tab-delimited .csv and comma-delimited .tsv foreign tables, hard-linked cluster file, dataset without cluster file',
 ]
 STUBS = ['virtual file system', 'np.random.choice (arbitrary subset)', 'tqdm']
 OUTSIDE = ['byte formats of npy/TSV (replays run the same histories on a real directory)', 'longer histories']
